@@ -136,6 +136,35 @@ def contains_top(v: Any) -> Optional[str]:
     return None
 
 
+# results of operations the analyser models only opaquely: a term that contains one of these is *imprecise*
+# (a mismatch with a reference form is then "cannot tell", not "differs")
+IMPRECISE_APPS = {"join", "slice", "list", "dict", "set", "sorted", "type", "repr", ".index", ".count", "tuple", "enumerate", "zip",
+                  "range", "getattr", "any", "all", "min", "max", "sum", ".keys", ".values", ".items", "int.from_bytes", "unhexlify",
+                  "field", ".group", "re.match", "re.search", "re.fullmatch", "re.compile", "replace", "halflen"}
+IMPRECISE_TAGS = {"mapobj", "filterobj", "map", "item?", "chunks", "extmeth", "elemof", "splitlist", "sorted-elem", "listof"}
+
+
+def imprecise(v: Any) -> Optional[str]:
+    """Reason why a term is only opaquely modelled (deep), else None."""
+    if isinstance(v, tuple):
+        if len(v) > 1 and v[0] == "app" and v[1] in IMPRECISE_APPS:
+            return f"{v[1]}(...) is modelled opaquely"
+        if v and v[0] in IMPRECISE_TAGS:
+            return f"{v[0]} value is modelled opaquely"
+        if len(v) == 3 and v[0] == "sym" and isinstance(v[1], str) and v[1].startswith("ret:"):
+            return f"result of the unknown call {v[1][4:]}"
+        for x in v:
+            r = imprecise(x)
+            if r:
+                return r
+    elif isinstance(v, Lin):
+        for t in v.coef:
+            r = imprecise(t)
+            if r:
+                return r
+    return None
+
+
 def sym(name: str, typ: Any = "any") -> Term:
     return ("sym", name, typ)
 
